@@ -256,6 +256,19 @@ func check(c *h.Case, hs *hist, w *world, subscribedAtEnd map[string]bool, sig s
 				c.R.Stat("publishes_overlapping_unsubscribe_not_delivered", 1)
 				continue
 			}
+			if rep != nil {
+				var sb strings.Builder
+				for _, q := range hs.pubs {
+					fmt.Fprintf(&sb, "pub msg=%d %s/%s logical=[%d,%d] t=%v accepted=%v overlapsUnsub=%v\n", q.msg, q.id, q.topic, q.call, q.ret, q.at, q.accepted, q.overlapsUn)
+				}
+				for _, d := range hs.dels {
+					fmt.Fprintf(&sb, "delivery msg=%d %s/%s logical=%d t=%v pos=%d\n", d.msg, d.id, d.topic, d.seq, d.at, d.pos)
+				}
+				for _, u := range hs.uns {
+					fmt.Fprintf(&sb, "unsubscribe %s/%s logical=[%d,%d]\n", u.id, u.topic, u.call, u.ret)
+				}
+				rep["history"] = sb.String()
+			}
 			c.Violation("lost:"+classifyLoss(p, rep)+":"+sig, fmt.Sprintf("message %d to %s was accepted (publish returned true at virtual t=%v) but never delivered and not handed to OnUnsubscribe by the end of the drain phase", p.msg, k, p.at), rep)
 		}
 	}
@@ -482,10 +495,13 @@ func randomCase(c *h.Case, k int) {
 	for i := 0; i < nt; i++ {
 		topics = append(topics, fmt.Sprintf("t%d", i))
 	}
+	stable := map[string]bool{} // (id, topic) subscribed from the start
 	for _, id := range ids {
 		for _, tp := range topics {
 			if rng.Intn(4) != 0 {
-				w.subscribe(id, tp)
+				if w.subscribe(id, tp) {
+					stable[key(id, tp)] = true
+				}
 			}
 		}
 	}
@@ -557,6 +573,7 @@ func randomCase(c *h.Case, k int) {
 	if k%2 == 0 {
 		uwg.Add(1)
 		uid, utp := ids[rng.Intn(nc)], topics[rng.Intn(nt)]
+		delete(stable, key(uid, utp))
 		d1 := time.Duration(rng.Intn(150)) * time.Millisecond
 		d2 := time.Duration(rng.Intn(150)) * time.Millisecond
 		go func() {
@@ -590,9 +607,22 @@ func randomCase(c *h.Case, k int) {
 		}
 	}
 	rep := map[string]interface{}{"scenario": "random", "clients": nc, "topics": nt, "publishers": npub, "heartbeat": hb.String(), "poll_timeout_windows": windows, "accepted": nacc, "deliveries": len(hs.dels)}
+	// a client that is subscribed from the start, never unsubscribes and keeps polling well within
+	// the heart beat stays subscribed: every publish to it is accepted
+	for _, p := range hs.pubs {
+		if !p.accepted && stable[key(p.id, p.topic)] {
+			c.Violation("publish-rejected-for-a-subscribed-polling-client:random", fmt.Sprintf("message %d to %s/%s at virtual t=%v was refused although the client subscribed before the traffic began, never unsubscribed and polls continuously (heart beat %v)", p.msg, p.id, p.topic, p.at, hb), rep)
+			break
+		}
+	}
 	check(c, hs, w, nil, "random", rep)
 	if nacc > 0 {
 		r.Distinct(fmt.Sprintf("random|%d", k))
+	}
+	r.Stat("publishes_total", int64(len(hs.pubs)))
+	if hb > 0 {
+		r.Stat("publishes_total_with_heartbeat", int64(len(hs.pubs)))
+		r.Stat("messages_accepted_with_heartbeat", int64(nacc))
 	}
 	r.Stat("messages_accepted", int64(nacc))
 	r.Stat("messages_delivered", int64(len(hs.dels)))
@@ -779,7 +809,10 @@ func offlineCase(c *h.Case) {
 	time.Sleep(time.Second)
 	c.R.Eval(3)
 	// conservation: every accepted message was delivered or handed to OnUnsubscribe, none twice
-	check(c, hs, w, nil, "offline", map[string]interface{}{"scenario": "offline-after-heartbeat", "leftovers": fmt.Sprint(w.left)})
+	w.mu.Lock()
+	leftovers := fmt.Sprint(w.left)
+	w.mu.Unlock()
+	check(c, hs, w, nil, "offline", map[string]interface{}{"scenario": "offline-after-heartbeat", "leftovers": leftovers})
 	if ok := w.unicast("pub", 99, "t", "c1"); ok {
 		c.Violation("accepted-for-an-offline-client", "a publish to a client that went offline reported success", nil)
 	}
